@@ -299,6 +299,11 @@ func runDownload(t *testing.T, tape *simrt.Tape, env dst.Env, verified bool) *si
 		if !verified && tape.Coin(simrt.Cfg, 1, 3) {
 			ps = 1024 * (1 + tape.Choose(simrt.Cfg, 8)) // plain downloads take any part size
 		}
+		if verified && tape.Coin(simrt.Cfg, 1, 3) {
+			// part sizes that neither divide nor are divided by the hash window:
+			// chunks then straddle window boundaries
+			ps = 4096 * simrt.Pick(tape, simrt.Cfg, 5, 12, 24, 40)
+		}
 		threads := tape.Range(simrt.Cfg, 1, 8)
 		parallel := tape.Coin(simrt.Cfg, 1, 2)
 		var size int64
@@ -323,7 +328,7 @@ func runDownload(t *testing.T, tape *simrt.Tape, env dst.Env, verified bool) *si
 		}
 		f := file{seed: tape.Uint64(simrt.Wl), size: size}
 		typ := simrt.Pick[tg.StorageFileTypeClass](tape, simrt.Wl, &tg.StorageFileJpeg{}, &tg.StorageFileMp4{}, &tg.StorageFileUnknown{}, &tg.StorageFilePartial{})
-		srv := &dlServer{tape: tape, f: f, typ: typ, flood: newFloodLog(), faults: tape.Coin(simrt.Cfg, 3, 4), fatal: tgerr.New(400, "FILE_REFERENCE_EXPIRED"), lat: tape.Coin(simrt.Cfg, 1, 2)}
+		srv := &dlServer{tape: tape, f: f, typ: typ, flood: newFloodLog(), faults: tape.Coin(simrt.Cfg, 3, 4), fatal: genFatal(tape), lat: tape.Coin(simrt.Cfg, 1, 2)}
 		srv.window = simrt.Pick(tape, simrt.Cfg, 4096, 8192, 16384, 131072)
 		verifyFlag := false
 		if verified {
@@ -372,7 +377,7 @@ func runDownload(t *testing.T, tape *simrt.Tape, env dst.Env, verified bool) *si
 		}
 		if err != nil {
 			var re *tgerr.Error
-			injected := errors.As(err, &re) && re.Message == "FILE_REFERENCE_EXPIRED"
+			injected := errors.As(err, &re) && re.Message == srv.fatal.(*tgerr.Error).Message
 			if !injected && !srv.corrupted && ctx.Err() == nil {
 				viol(prop+".spurious-error", "spurious-error", "download of %d bytes failed although nothing fatal was injected and the peer was honest: %v", size, err)
 			}
